@@ -296,6 +296,10 @@ def getMetaInfo(text, log=None):
             <meta http-equiv="Content-Type"
                   content="media_type;charset=encoding" />
     """
+    if isinstance(text, bytes):
+        # sniff on the byte values
+        text = text.decode('latin-1')
+
     p = _MetaHTMLParser()
 
     try:
@@ -342,6 +346,9 @@ def detectXMLEncoding(fp, log=None, includeDefault=True):  # noqa: C901
         - if BOM and xml declaration fail, utf-8 is returned according
           to XML 1.0.
     """
+    if isinstance(fp, bytes):
+        # sniff on the byte values
+        fp = fp.decode('latin-1')
     if isinstance(fp, str):
         fp = io.StringIO(fp)
 
@@ -359,7 +366,10 @@ def detectXMLEncoding(fp, log=None, includeDefault=True):  # noqa: C901
     # go to beginning of file and get the first 4 bytes
     oldFP = fp.tell()
     fp.seek(0)
-    (byte1, byte2, byte3, byte4) = tuple(map(ord, fp.read(4)))
+    first = fp.read(4)
+    if isinstance(first, bytes):
+        first = first.decode('latin-1')
+    (byte1, byte2, byte3, byte4) = tuple(map(ord, first))
 
     # try bom detection using 4 bytes, 3 bytes, or 2 bytes
     bomDetection = bomDict.get((byte1, byte2, byte3, byte4))
@@ -384,6 +394,8 @@ def detectXMLEncoding(fp, log=None, includeDefault=True):  # noqa: C901
     # assume xml declaration fits into the first 2 KB (*cough*)
     fp.seek(0)
     buffer = fp.read(2048)
+    if isinstance(buffer, bytes):
+        buffer = buffer.decode('latin-1')
 
     # set up regular expression
     xmlDeclPattern = r"""
@@ -567,6 +579,9 @@ def getEncodingInfo(response=None, text='', log=None, url=None):  # noqa: C901
     if text is None:
         # text must be a string (not None)
         text = ''
+    if isinstance(text, bytes):
+        # all sniffing works on the byte values
+        text = text.decode('latin-1')
 
     encinfo = EncodingInfo()
 
